@@ -47,9 +47,9 @@ Proof. exact current_restores_ok_except_str. Qed.
 Print Assumptions C12_current_restores_ok_except_str.
 
 (* ... and try/finally alone settles everything but string parameters *)
-Theorem C12_finally_only_restores_except_str : forall validate sim_d shots init prog h,
+Theorem C12_finally_only_restores_except_str : forall up validate sim_d shots init prog h,
   wf_prog prog -> prog_no_str prog ->
-  snd (fst (execute (mkV true false) validate sim_d shots init prog h)) = prog.
+  snd (fst (execute (mkV true false up) validate sim_d shots init prog h)) = prog.
 Proof. exact finally_only_restores_except_str. Qed.
 Print Assumptions C12_finally_only_restores_except_str.
 
@@ -78,28 +78,31 @@ Print Assumptions C12_params_left_resolved_refuted_on_current.
 (* the caller's Config object keeps every attribute and its Generator object, for every
    sequence of things the steps do (writes, draws, sub-branch copies), on both trees *)
 Theorem C12_caller_config_untouched : forall fx c ui ur evs h0,
-  (c < h_ncfg h0)%nat -> (c_rng (h_cfg h0 c) < h_nrng h0)%nat ->
-  (forall s, ui = Some s -> (s < h_nst h0)%nat /\ (s_cfg (h_st h0 s) < h_ncfg h0)%nat) ->
+  (c < h_ncfg h0)%nat ->
+  (forall s, ui = Some s -> (s < h_nst h0)%nat) ->
   h_cfg (exec_heap fx (Some c) ui ur evs h0) c = h_cfg h0 c.
 Proof. exact caller_config_untouched. Qed.
 Print Assumptions C12_caller_config_untouched.
 
-(* the caller's initial_state keeps its arrays, its Config and - unless it is the very
-   Generator the simulator shares with the caller's Config - its Generator's state *)
+(* the caller's initial_state keeps its arrays, its Config and - unless they are the very
+   objects the simulator shares with the caller's Config - the states of its generators *)
 Theorem C12_initial_state_untouched : forall fx uc s ur evs h0,
-  (forall c, uc = Some c -> (c < h_ncfg h0)%nat /\ (c_rng (h_cfg h0 c) < h_nrng h0)%nat) ->
-  (s < h_nst h0)%nat -> (s_cfg (h_st h0 s) < h_ncfg h0)%nat -> (rng_of h0 s < h_nrng h0)%nat ->
+  (forall c, uc = Some c -> (c < h_ncfg h0)%nat) ->
+  (s < h_nst h0)%nat -> (s_cfg (h_st h0 s) < h_ncfg h0)%nat ->
+  (rng_of h0 s < h_nrng h0)%nat -> (py_of h0 s < h_npy h0)%nat ->
   (fx = true \/ uc <> None) ->
   let h := exec_heap fx uc (Some s) ur evs h0 in
   h_st h s = h_st h0 s /\ h_cfg h (s_cfg (h_st h0 s)) = h_cfg h0 (s_cfg (h_st h0 s))
-  /\ (Some (rng_of h0 s) <> shared_of h0 uc -> h_rng h (rng_of h0 s) = h_rng h0 (rng_of h0 s)).
+  /\ (Some (rng_of h0 s) <> shared_of h0 uc -> h_rng h (rng_of h0 s) = h_rng h0 (rng_of h0 s))
+  /\ (Some (py_of h0 s) <> shared_py_of h0 uc -> h_py h (py_of h0 s) = h_py h0 (py_of h0 s)).
 Proof. exact initial_state_untouched. Qed.
 Print Assumptions C12_initial_state_untouched.
 
-(* repaired tree: the state of the `random` module is never written *)
+(* repaired tree (every Config owns its random.Random): the state of the `random` module is
+   never written, whatever the steps do *)
 Theorem C12_global_random_untouched : forall uc ui ur evs h0,
-  (forall c, uc = Some c -> (c < h_ncfg h0)%nat /\ (c_rng (h_cfg h0 c) < h_nrng h0)%nat) ->
-  (forall s, ui = Some s -> (s < h_nst h0)%nat /\ (s_cfg (h_st h0 s) < h_ncfg h0)%nat) ->
+  (forall c, uc = Some c -> (c < h_ncfg h0)%nat) ->
+  (forall s, ui = Some s -> (s < h_nst h0)%nat) ->
   h_global (exec_heap true uc ui ur evs h0) = h_global h0.
 Proof. exact global_random_untouched. Qed.
 Print Assumptions C12_global_random_untouched.
@@ -111,10 +114,11 @@ Theorem C12_global_random_written_refuted_on_current :
 Proof. exact global_random_written_refuted_on_current. Qed.
 Print Assumptions C12_global_random_written_refuted_on_current.
 
-(* not claimed: Config.copy shares the Generator on purpose, so its state does advance *)
+(* not claimed: Config.copy shares rng and _python_rng on purpose, so their states advance *)
 Theorem C12_caller_rng_shared_by_design :
-  exists h c evs, (c < h_ncfg h)%nat /\
-    h_rng (exec_heap true (Some c) None 0%Z evs h) (c_rng (h_cfg h c)) <> h_rng h (c_rng (h_cfg h c)).
+  exists h c, (c < h_ncfg h)%nat /\
+    h_rng (exec_heap true (Some c) None 0%Z [HDrawNp] h) (c_rng (h_cfg h c)) <> h_rng h (c_rng (h_cfg h c))
+    /\ h_py (exec_heap true (Some c) None 0%Z [HDrawPy] h) (c_py (h_cfg h c)) <> h_py h (c_py (h_cfg h c)).
 Proof. exact caller_rng_shared_by_design. Qed.
 Print Assumptions C12_caller_rng_shared_by_design.
 
@@ -136,11 +140,15 @@ Print Assumptions C12_pfaffian_inplace_refuted_on_current.
 
 (* non-vacuity *)
 Example C12_example_ok_run :
-  execute repaired true (Some 3) (Some 1) None w_str all_ok
+  execute repaired true (Some 3) (Some 1) None w_str up_ok
   = (inr [[1]], w_str,
-     [CValidate 0 [0;1;2] []; CStep 0 [0;1;2] [] [];
-      CValidate 1 [0] []; CStep 1 [0] [] [];
+     [CValidate 0 [] []; CValidate 1 [0] [];
+      CStep 0 [0;1;2] [] []; CStep 1 [0] [] [];
       CParam 2 1 [1]; CValidate 2 [1] [(1, PConst 3)]; CStep 2 [1] [(1, PConst 3)] [1]]).
 Proof. exact repaired_ok_run. Qed.
+Example C12_example_inactive_upfront :
+  execute repaired true (Some 3) (Some 1) None [prep_all; meas1 [0]; gate1 [0] []] up_ok
+  = (inl EInactiveModes, [prep_all; meas1 [0]; gate1 [0] []], []).
+Proof. exact repaired_inactive_upfront. Qed.
 Example C12_example_pfaffian : Qeq_bool (fst (connector_pfaffian true 4 w4)) (8 # 1) = true.
 Proof. exact pfaffian_w4_value. Qed.
